@@ -1326,10 +1326,12 @@ def history_db(dialect, log):
     class P(db.Entity):
         _table_ = HIST_P_TABLE
         id = PrimaryKey(int, column=HIST_COLS['id'])
-        name = Optional(str, column=HIST_COLS['name'], autostrip=False)
-        note = Optional(str, column=HIST_COLS['note'], autostrip=False)
+        # the nullable attributes are declared first: an optimistic check that read one of them while it was NULL writes its
+        # IS NULL criterion (no placeholder) BEFORE the placeholders of the string attributes read as well
         tag = Optional(str, column=HIST_COLS['tag'], autostrip=False, nullable=True)
         n = Optional(int, column=HIST_COLS['n'])
+        name = Optional(str, column=HIST_COLS['name'], autostrip=False)
+        note = Optional(str, column=HIST_COLS['note'], autostrip=False)
 
     class R(db.Entity):
         _table_ = HIST_R_TABLE
